@@ -20,7 +20,7 @@ RULE = ('Public callables are enumerated at run time with inspect (functions of 
         'lists, channel lists, mef_values). Hypothesis draws (callable, variant, data seed); every argument is '
         'fingerprinted before and after the call (also when it raises); sample-valued results are tested for '
         'shared memory and for independence under mutation in both directions. Exhaustive part: all ordered pairs '
-        'of ~35 read-only queries on one sample (answer of q2 after q1 == answer of q2 on a pristine equal '
+        'of ~47 read-only queries on one sample (answer of q2 after q1 == answer of q2 on a pristine equal '
         'object). Non-trivial = the call received a caller-owned mutable container, or a sample with a zero lower '
         'limit and a log scale.')
 ASSUMPTIONS = ['fingerprints use public accessors only (values, dtype, every metadata accessor; recursive structure '
@@ -325,10 +325,12 @@ def build_recipes():
         return (mef.plot_standard_curve, [np.array([10., 30., 100., 300.]), np.array([100., 646., 1704., 4827.]), o[1], o[0]],
                 dict(xscale='log', yscale='log', xlim=_own(c, [1.0, 1000.0])))
     add('mef.plot_standard_curve', rec_psc)
-    for variant in ('real', 'stub', 'plot'):
+    for variant in ('real', 'stub', 'plot', 'ndarray'):
         def rec_gt(c, variant=variant):
             b = c.beads()
             mv = _own(c, [[100, 1000, 10000], [80, 800, 8000]])
+            if variant == 'ndarray':
+                mv = _own(c, np.array([[100., 1000., 10000.], [80., 800., 8000.]]))
             kw = dict(clustering_channels=_own(c, ['FL1-H', 'FL2-H']), clustering_params=_own(c, {}),
                       statistic_params=_own(c, {}), selection_params=_own(c, {}), fitting_params=_own(c, {}), full_output=True)
             if variant == 'stub':
